@@ -91,6 +91,10 @@ func (ex *Exec) havocComp(st *State, name string) {
 	if !ok {
 		return
 	}
+	if ex.collect != nil {
+		*ex.collect = append(*ex.collect, name)
+		return
+	}
 	v := Fresh("H$"+name, sort)
 	nowOf[v.id] = st.now
 	old := ex.get(st, name, sort)
